@@ -33,7 +33,7 @@ BASE_WEIGHTS = {'train_step': 3, 'forward_only': 4, 'perturb_arch': 4, 'set_mode
 
 
 def budget(tier):
-    return {'runs': 2500, 'seconds': 75} if tier == 'quick' else {'runs': 200000, 'seconds': 1500}
+    return {'runs': 4000, 'seconds': 75} if tier == 'quick' else {'runs': 200000, 'seconds': 1500}
 
 
 def generate(seed, run, tier):
